@@ -334,3 +334,17 @@ pub fn history_json(ctx: &RunCtx, j: &mut Json) {
     }
     j.end_arr();
 }
+
+pub fn pipes_json(ctx: &RunCtx, j: &mut Json) {
+    j.arr();
+    for (p, st) in ctx.pipes.iter().enumerate() {
+        let c = st.input.lock().unwrap();
+        j.obj();
+        j.kv_num("pipe", p).kv_num("created_at", st.created.load(ORD)).kv_num("items_pushed", st.pushed.load(ORD)).kv_num("input_ended_at", st.closed_stamp.load(ORD));
+        j.kv_num("output_stream_dropped_at", st.stream_dropped.load(ORD)).kv_num("drop_class", st.drop_class.load(ORD)).kv_num("outputs_read", st.outputs.lock().unwrap().len());
+        j.kv_bool("output_ended", st.out_ended.load(ORD)).kv_num("consumer_parks", st.consumer_parks.load(ORD)).kv_num("input_polls", c.polls).kv_num("input_polls_pending", c.pending_polls);
+        j.kv_num("input_stream_drops", st.input_drops.load(ORD)).kv_num("closure_drops", st.closure_drops.load(ORD)).kv_num("items_left_in_input", c.q.len());
+        j.end_obj();
+    }
+    j.end_arr();
+}
